@@ -201,7 +201,12 @@ def run_session(cfg, csv_path, symbols, data_source=None, probe_signals=False, h
             sig['sma'] = q.SMASignal(start, universe, [acfg['fast'], acfg['slow']])
         if acfg['kind'] == 'invvol' and 'vol' not in sig:
             sig['vol'] = q.VolatilitySignal(start, universe, [acfg['lookback']])
-        signals = q.SignalsCollection(sig, dh)
+        sig_dh = dh
+        if cfg.get('signals_feed') == 'other_adjustment':
+            # the signals read a feed of their own: the same files with the opposite price adjustment
+            sig_dh = q.BacktestDataHandler(universe, data_sources=[q.CSVDailyBarDataSource(
+                csv_path, q.Equity, adjust_prices=not cfg.get('adjust', True), csv_symbols=list(symbols))])
+        signals = q.SignalsCollection(sig, sig_dh)
     if acfg['kind'] in ('fixed', 'single') and shared.get('alpha_inner') is not None:
         alpha = shared['alpha_inner']          # the very object an earlier session used
     elif acfg['kind'] == 'fixed':
@@ -245,6 +250,8 @@ def run_session(cfg, csv_path, symbols, data_source=None, probe_signals=False, h
     kw = {}
     if cfg['rebalance'] == 'weekly':
         kw['rebalance_weekday'] = cfg['weekday']
+    elif cfg.get('spare_weekday'):
+        kw['rebalance_weekday'] = cfg['spare_weekday']
     if cfg.get('portfolio_id'):
         kw['portfolio_id'] = cfg['portfolio_id']
         kw['account_name'] = 'acct-' + cfg['portfolio_id']
